@@ -54,3 +54,36 @@ func TestRefInterop(t *testing.T) {
 		}
 	}
 }
+
+func TestRefResumption(t *testing.T) {
+	p := Get()
+	for _, suite := range []uint16{0xe013, 0xe053} {
+		sc := &gmtls.Config{GMSupport: &gmtls.GMSupport{}, Certificates: []gmtls.Certificate{p.Sign, p.Enc}, Time: FixedTime, Rand: wire.NewRand(1), CipherSuites: []uint16{suite}}
+		sc.SetSessionTicketKeys([][32]byte{{1, 2, 3}})
+		var ticket, master []byte
+		for round := 0; round < 3; round++ {
+			var sv, dummy View
+			var rv RefView
+			setup := func(q *gmref.Peer) {
+				q.Suites = []uint16{suite}
+				q.OfferTicket = true
+				if ticket != nil {
+					q.Ticket, q.ResumeMaster, q.ResumeSuite = ticket, master, suite
+				}
+			}
+			o := Run(RefEnd(true, gmref.Identity{}, byte(7+round), setup, &gmref.Script{Data: PingPong(true)}, &rv),
+				GMEnd(sc, false, LibApp(false), &sv, nil), &dummy, &sv, nil)
+			t.Logf("suite %04x round %d: resumed(ref)=%v resumed(lib)=%v complete=%v/%v newTicket=%d seen=%v err=%v", suite, round, rv.Peer.Resumed, o.S.DidResume, o.S.Complete, rv.Res.Completed, len(rv.Peer.NewTicket), rv.Peer.Seen, rv.Res.Err)
+			if !o.S.Complete || !rv.Res.Completed || string(o.S.Read) != "ping" || string(rv.Peer.Received) != "pong" {
+				t.Fatalf("round %d failed: %s", round, o.Describe())
+			}
+			if round > 0 && (!rv.Peer.Resumed || !o.S.DidResume) {
+				t.Fatalf("round %d did not resume", round)
+			}
+			if rv.Peer.NewTicket != nil {
+				ticket = rv.Peer.NewTicket
+			}
+			master = rv.Peer.Master
+		}
+	}
+}
